@@ -650,6 +650,19 @@ func (w *c12World) carFamilies() []*c12Fam {
 					return err
 				})
 				x.Guard(c12eReadNodeSize, func() error { _, err := readNodeSizeFromReaderAtWithOffset(c12Reader(in), 0); return err })
+				// the size handed to the readers comes from an index (cid-to-offset-and-size value, address-index
+				// location): sizes that disagree with the section, up to the largest a corrupt index can hold
+				for _, size := range []uint64{uint64(len(in)) + 1, 1 << 31, 1 << 40, 1 << 62, ^uint64(0)} {
+					size := size
+					x.Guard(c12eReadNodeAt, func() error {
+						_, err := readNodeFromReaderAtWithOffsetAndSize(c12Reader(in), &want, 0, size)
+						return err
+					})
+					x.Guard(c12eReadNodeKnown, func() error {
+						_, err := readNodeWithKnownSize(bufio.NewReader(bytes.NewReader(in)), &want, size)
+						return err
+					})
+				}
 				d := x.Guard(c12eCarInfoData, func() error {
 					_, _, _, err := carreader.ReadNodeInfoWithData(bufio.NewReader(bytes.NewReader(in)))
 					return err
